@@ -261,7 +261,7 @@ func checkStackOverflowAbort(c *core.Ctx) {
 								befores = append(befores, y)
 							}
 						}
-						if se.Sel.Name == "pushFrame" {
+						if se.Sel.Name == "pushFrame" || interpCeilingCheckers(p)[se.Sel.Name] {
 							guards = append(guards, y.Pos())
 						}
 					}
